@@ -39,16 +39,19 @@ type Config struct {
 	FileArg  string            // file mode: path of the yaml file
 	Opts     options.RunOptions
 	Scenario f1testing.ScenarioFn
-	Name     string
-	Metrics  *metrics.Metrics // nil: fresh private registry, iteration metrics on
-	Labels   map[string]string
-	Ctx      context.Context
-	Wait     time.Duration  // waitForCompletionTimeout (default 10s)
-	OnRun    func(*run.Run) // called before Do
-	WrapRate func(api.RateFunction) api.RateFunction
-	Debug    bool                 // run with a logger on which debug records are enabled (they go nowhere)
-	Settings envsettings.Settings // environment settings of the run (push gateway, ...)
-	LogKind  int                  // 0: f1's discard logger (info and above enabled); 1: every level enabled; 2: no level enabled
+	// Scenarios, when set, is the registration the run uses (it holds a scenario called Name):
+	// several runs on one registration, as several executions of one f1 instance are
+	Scenarios *scenarios.Scenarios
+	Name      string
+	Metrics   *metrics.Metrics // nil: fresh private registry, iteration metrics on
+	Labels    map[string]string
+	Ctx       context.Context
+	Wait      time.Duration  // waitForCompletionTimeout (default 10s)
+	OnRun     func(*run.Run) // called before Do
+	WrapRate  func(api.RateFunction) api.RateFunction
+	Debug     bool                 // run with a logger on which debug records are enabled (they go nowhere)
+	Settings  envsettings.Settings // environment settings of the run (push gateway, ...)
+	LogKind   int                  // 0: f1's discard logger (info and above enabled); 1: every level enabled; 2: no level enabled
 }
 
 // Logger returns a logger that writes nowhere: kind 0 is f1's own discard logger (info and above
@@ -142,8 +145,11 @@ func DoWithTrigger(cfg Config, trig *api.Trigger) Outcome {
 	if cfg.Name == "" {
 		cfg.Name = "verifscenario"
 	}
-	scs := scenarios.New()
-	scs.Add(&scenarios.Scenario{Name: cfg.Name, ScenarioFn: cfg.Scenario})
+	scs := cfg.Scenarios
+	if scs == nil {
+		scs = scenarios.New()
+		scs.Add(&scenarios.Scenario{Name: cfg.Name, ScenarioFn: cfg.Scenario})
+	}
 	m := cfg.Metrics
 	if m == nil {
 		m = NewMetrics(cfg.Labels, true)
